@@ -4,6 +4,7 @@ CONSTANTS
   NSlots = {"n4"}
   Prog <- MC_Prog
   None = None
+  AsBuiltClean = FALSE
   MaxPre = 1
   MaxPPost = 2
   MaxSTicks = 2
@@ -19,5 +20,5 @@ CONSTANTS
   SecondForkTip = TRUE
   PinLastOnly = TRUE
   Export = TRUE
-INVARIANTS ForkIsExactPrefix NoSharedHeads LaneIsolation StrandTicksDontTouchParent ParentTicksDontTouchStrand PlanIsPure SettleAllOrNothing ImportedSlotsTakeStrandValues ParentChangedSlotsNeverOverwritten BlockingIsSticky ParentStaysReplayable  Inv_Export
+INVARIANTS ForkIsExactPrefix NoSharedHeads LaneIsolation StrandTicksDontTouchParent ParentTicksDontTouchStrand PlanIsPure SettleAllOrNothing ImportedSlotsTakeStrandValues ParentChangedSlotsNeverOverwritten BlockingIsSticky ParentStaysReplayable ImportsReplayCleanly  Inv_Export
 CHECK_DEADLOCK FALSE
